@@ -13,7 +13,9 @@ from .common import MachineryError
 CHECKS = {
     "C01": ("vf.checks_wire", "c01"),
     "C02": ("vf.checks_wire", "c02"),
+    "C03": ("vf.checks_wire", "c03"),
     "C04": ("vf.checks_wire", "c04"),
+    "C05": ("vf.checks_wire", "c05"),
     "C06": ("vf.checks_wire", "c06"),
     "C19": ("vf.checks_wire", "c19"),
 }
